@@ -346,6 +346,8 @@ def register_pandas():
     def normalize_dataframe(df):
         mgr = df._mgr
         data = list(mgr.arrays) + [df.columns, df.index]
+        # which column sits in which row of which block
+        data += [getattr(mgr, "blknos", None), getattr(mgr, "blklocs", None)]
         return list(map(normalize_token, data))
 
     @normalize_token.register(pd.arrays.ArrowExtensionArray)
@@ -470,6 +472,9 @@ def register_numpy():
                 data = hash_buffer_hex(x.ravel(order="C").view("i1"))
             except (BufferError, AttributeError, ValueError):
                 data = hash_buffer_hex(x.copy().ravel(order="C").view("i1"))
+        if type(x) is not np.ndarray:
+            # subclasses (np.matrix, ...) give the same data a different meaning
+            return (type(x), data, x.dtype, x.shape)
         return (data, x.dtype, x.shape)
 
     @normalize_token.register(np.memmap)
